@@ -4,7 +4,8 @@
      tensor_chain/src/raft.rs      persist_term_and_vote / persist_log_entry call sites in
                                    start_election, handle_request_vote, handle_request_vote_response,
                                    handle_append_entries (+ append_leader_entries),
-                                   handle_append_entries_response, become_leader, propose, with_wal
+                                   handle_append_entries_response, become_leader, propose, install_snapshot
+                                   (install_snapshot_entries + persist_installed_log), with_wal
    Definitions only.  Node ids are small numbers (0 = this node, 1 and 2 = its peers, others =
    further candidates); a log entry is (index, term, block height). *)
 From NV.Common Require Import Base WalFormat.
@@ -103,7 +104,12 @@ Inductive step_in :=
 | Append (t leader prev_i prev_t : N) (ents : list lentry) (commit : N)
 | AppendResp (from t : N)
 | BecomeLeader
-| Propose (h : N).
+| Propose (h : N)
+| InstallSnap (lit : N) (ents : list lentry) (accepted : bool).
+  (* install_snapshot(metadata, data): ents = the snapshot's entries (a complete log from index 1,
+     last_included_term lit = term of the last one); accepted = the call returned Ok (a snapshot
+     that is not newer than the last one, or fails validation, is refused before anything is
+     written -- read off the implementation) *)
 
 (* what the caller gets back, as numbers: [term; flag; index] *)
 Definition step_out := list N.
@@ -185,6 +191,21 @@ Definition step (n : node) (s : step_in) : node * list rentry * step_out :=
       else if term n <? t then (Node t None (log n) FOLLOWER (votes n), [TermAndVote t None], [])
       else (n, [], [])
   | BecomeLeader => (Node (term n) (voted n) (log n) LEADER (votes n), [], [])
+  | InstallSnap lit ents accepted =>
+      if negb accepted then (n, [], [0])
+      else
+        (* a higher last-included term is adopted (logged first, no vote in it) *)
+        let '(n1, w1) :=
+          if term n <? lit then (Node lit None (log n) (role n) (votes n), [TermAndVote lit None])
+          else (n, []) in
+        (* the installed entries are logged like appended ones BEFORE they replace the log in
+           memory (persist_installed_log): nothing for entries already held, a truncation at the
+           first conflicting index, every entry behind the local log; a longer local log is cut *)
+        let '(l1, w2) := append_entries (log n1) ents in
+        let '(l2, w3) :=
+          if llen ents <? llen l1 then (firstn (length ents) l1, [LogTruncate (llen ents + 1)])
+          else (l1, []) in
+        (Node (term n1) (voted n1) l2 (role n1) (votes n1), w1 ++ w2 ++ w3, [1])
   | Propose h =>
       if role n =? LEADER then
         let i := llen (log n) + 1 in
